@@ -469,20 +469,11 @@ func (s *seqRT) ruleSync() {
 	for _, h := range hits {
 		c.bad("SEQ.SYNC", h.what+" in "+relName(h.fn), s.w.Pos(h.pos), "the runtime must execute steps synchronously inside the advancing call and must not intercept panics: "+h.what)
 	}
-	// channel receives: the runtime never creates a channel, so a receive can only be on a channel the user
-	// handed to it (the range-over-channel iterator); where the receive sits (a method, a closure built by the
-	// constructor) is a matter of representation
+	// channel receives: without go statements and sends (both excluded above) nothing in the runtime can feed a
+	// channel, so a receive is either on a channel the user handed in (the range-over-channel iterator) or on a
+	// channel nobody writes to; where the receive sits (a method, a closure built by the constructor) is a
+	// matter of representation. Only a receive from a nil constant or a package variable is reported.
 	made := 0
-	for _, f := range s.w.FuncsOf(pathSeq) {
-		for _, b := range f.Blocks {
-			for _, ins := range b.Instrs {
-				if mc, ok := ins.(*ssa.MakeChan); ok {
-					made++
-					c.bad("SEQ.SYNC", "channel created in "+relName(f), s.w.Pos(mc.Pos()), "the runtime creates a channel of its own: steps could be handed to another goroutine instead of running inside the advancing call")
-				}
-			}
-		}
-	}
 	for _, f := range s.w.FuncsOf(pathSeq) {
 		for _, b := range f.Blocks {
 			for _, ins := range b.Instrs {
